@@ -13,7 +13,8 @@ def run_part(ctx):
         "hand-written model of serializer.Deserializer primitives, serializer/stream/read.go, typeutils/from_bytes.go and the "
         "serializableorderedmap decode loop (C02_Prims/Model.v, Stream.v), tied to the code by the correspondence check only",
         "allocation is measured (runtime.MemStats.TotalAlloc per call) and compared with 64 KiB + 64 x the model's abstract cost "
-        "(stream reads: 64 KiB + 64 x min(cost, 4096) + 1.25 x cost; Go side: 64 KiB + 64 x len(input) + min(claimed length, 1 MiB)); "
+        "(stream reads: between cost - 4 KiB (cost >= 1 MiB) and 64 KiB + 64 x min(cost, 4096) + 1.125 x cost; Go side: 64 KiB + "
+        "64 x min(len, 4096) + 4.5 x len(input) + min(claimed length, 1 MiB)); "
         "the theorems bound the abstract cost (make sizes + loop iterations), not Go's allocator",
         "serix.Decode of a fixed-width integer inside SerializableOrderedMap.Decode is modelled as Deserializer.ReadNum",
     ])
